@@ -85,8 +85,8 @@ func execCase(spec string) engine.Result {
 }
 
 func bound(tier string) string {
-	if o := os.Getenv("C09_ONLY"); o != "" {
-		return "DEVELOPMENT RUN restricted to families " + o
+	if o := os.Getenv("C09_ONLY") + os.Getenv("C09_FN"); o != "" {
+		return "DEVELOPMENT RUN restricted to " + o
 	}
 	nf := len(allFunctions())
 	np := len(fullPool)
